@@ -18,8 +18,8 @@ CHECKS = {
    "Sampled histories; in-batch duplicate timestamps accept either value; type conflicts only against fields holding data; background compaction off (explicit planner/compactor calls instead).",
    "DESIGN.md section 3 C02"),
  "C03": ("fault_enumeration",
-   "complete enumeration of (replication, coordinator position, level, per-owner outcome vector, arrival order) on the real PointsWriter with gated recording doubles; pure oracle from the property text; race detector on",
-   "The real coordinator.PointsWriter.WritePointsPrivileged is driven through every combination of replication 1..4, coordinator position (each owner or a non-owner), consistency level and per-owner outcome (stored / retryable failure with handoff accepted or refused / permanent rejection / queue non-empty with enqueue accepted or refused / no answer), with answer arrival orders enforced by gates inside the doubles (n<=3 complete, n=4 one seeded order per tuple in quick and complete in thorough). The returned error class and, after all owner goroutines drained, the exact number and payload of hinted-handoff offers per owner are judged by a pure function of the case.",
+   "complete enumeration of (replication, coordinator position, level, per-owner outcome vector, arrival order) on the real PointsWriter with gated recording doubles; pure oracle from the property text; real ShardWriter against a scripted owner with unique write ids (answer-belongs-to-this-write monitor); race detector on",
+   "The real coordinator.PointsWriter.WritePointsPrivileged is driven through every combination of replication 1..4, coordinator position (each owner or a non-owner), consistency level and per-owner outcome (stored / retryable failure with handoff accepted or refused / permanent rejection / queue non-empty with enqueue accepted or refused / no answer), with answer arrival orders enforced by gates inside the doubles (n<=3 complete, n=4 one seeded order per tuple in quick and complete in thorough). The returned error class and, after all owner goroutines drained, the exact number and payload of hinted-handoff offers per owner are judged by a pure function of the case. A wire segment drives the real ShardWriter (connection pool, framing, timeout) with 1-5 concurrent clients against a scripted owner that answers each uniquely numbered write with stored / rejected / nothing until the call returned: the reported result must be the owner's answer to that very write.",
    "ShardWriter/HintedHandoff/TSDBStore/MetaClient are doubles (durability of an accepted enqueue is C04's concern); the integrated multi-node variant is not part of this check; arrival order of non-final successes is near-exact (scheduler yields), verdicts do not depend on it.",
    "DESIGN.md section 3 C03"),
  "C04": ("fault_enumeration",
